@@ -8,8 +8,11 @@
 //!
 //! Request lines (tab separated):
 //!   case <id> <cap> <engine>     prog <nfn> <kind:expr>…      set k v | rem k | sset i v | srem i
-//!   tins m k | trem m k | call f a | look f a | retain f a | unretain f a | nevergc f a | gc
-//! Answers:  ok | noref | dead | val <v> <runs> | panic:<class> [<runs>]
+//!   tins m k | trem m k | call f a | look f a | retain f a | unretain f a | nevergc f a | gc | where v
+//! Answers:  ok | noref | dead | val <v> <runs> | panic:<class> [<runs>] | in <f> <a> | none
+//! Function kinds: 0 = owned u64 parameter, 1 = SourceId parameter, 2 = no parameter, 3 = u64 parameter and the
+//! body (which must be a call `c<g> e`) is followed by `intern_ref(&callee_value)`; `where v` says into which node's
+//! current value the interned reference for the value v points (pointer identity, nothing is dereferenced).
 //! Expressions, prefix notation, space separated: l<n> p s g<i> t<m> c<f> + = ? h
 use std::cell::RefCell;
 use std::collections::{BTreeSet, HashMap};
@@ -151,6 +154,10 @@ thread_local! {
     static PROG: RefCell<Rc<Vec<FnDef>>> = RefCell::new(Rc::new(vec![]));
     static RUNS: RefCell<Vec<u64>> = RefCell::new(vec![]);
     static KEYS: RefCell<HashMap<Key, u64>> = RefCell::new(HashMap::new());
+    /// every MemoRef ever returned by an interpreter function, by normalised (f, a)
+    static ALLREFS: RefCell<HashMap<(u32, u64), MemoRef<u64>>> = RefCell::new(HashMap::new());
+    /// value -> the MemoRef returned by intern_ref for that value (its identity is the value)
+    static INTERNED: RefCell<HashMap<u64, MemoRef<u64>>> = RefCell::new(HashMap::new());
 }
 
 fn sid(k: u64) -> SourceId<Input> {
@@ -194,12 +201,39 @@ fn interp_0(db: &TestDatabase, f: u32) -> u64 {
     body(db, f, 0)
 }
 
+/// kind 3: run the body (a call of an owner), then intern a reference to the owner's stored value
+#[memo(raw)]
+fn interp_r(db: &TestDatabase, f: u32, a: u64) -> u64 {
+    RUNS.with(|r| {
+        if let Some(c) = r.borrow_mut().get_mut(f as usize) {
+            *c += 1
+        }
+    });
+    let prog = PROG.with(|p| p.borrow().clone());
+    let def = fn_def(&prog, f);
+    match &def.body {
+        Expr::Call(g, arg) => {
+            let av = eval(db, &prog, arg, a);
+            let owner = call_raw(db, &prog, *g, av);
+            let r: &u64 = owner.lookup(db);
+            let m = pico::intern_ref(db, r);
+            INTERNED.with(|t| t.borrow_mut().insert(*r, m));
+            *r
+        }
+        other => eval(db, &prog, other, a),
+    }
+}
+
 fn call_raw(db: &TestDatabase, prog: &Rc<Vec<FnDef>>, f: u32, a: u64) -> MemoRef<u64> {
-    match fn_def(prog, f).kind {
+    let kind = fn_def(prog, f).kind;
+    let m = match kind {
         2 => interp_0(db, f),
         1 => interp_s(db, f, sid(a)),
+        3 => interp_r(db, f, a),
         _ => interp_u(db, f, a),
-    }
+    };
+    ALLREFS.with(|t| t.borrow_mut().insert(if kind == 2 { (f, 0) } else { (f, a) }, m));
+    m
 }
 
 fn eval(db: &TestDatabase, prog: &Rc<Vec<FnDef>>, e: &Expr, a: u64) -> u64 {
@@ -321,6 +355,8 @@ fn run_line(sess: &mut Session, fs: &[&str]) -> String {
             *sess = Session::new(cap);
             PROG.with(|p| *p.borrow_mut() = Rc::new(vec![]));
             RUNS.with(|r| r.borrow_mut().clear());
+            ALLREFS.with(|t| t.borrow_mut().clear());
+            INTERNED.with(|t| t.borrow_mut().clear());
             return "ok".into();
         }
         "prog" => {
@@ -436,6 +472,34 @@ fn run_line(sess: &mut Session, fs: &[&str]) -> String {
                 Some(g) => {
                     g.never_garbage_collect();
                     "ok".into()
+                }
+            }
+        }
+        ("where", Some(v), _) => {
+            let m = INTERNED.with(|t| t.borrow().get(&v).copied());
+            match m {
+                None => "noref".into(),
+                Some(m) => {
+                    let db = &sess.db;
+                    // pointer identity only: the reference is never read
+                    match catch_unwind(AssertUnwindSafe(|| m.lookup(db) as *const u64 as usize)) {
+                        Err(p) => format!("panic:{}", panic_class(&p)),
+                        Ok(addr) => {
+                            let mut all: Vec<((u32, u64), MemoRef<u64>)> =
+                                ALLREFS.with(|t| t.borrow().iter().map(|(k, v)| (*k, *v)).collect());
+                            all.sort_by_key(|(k, _)| *k);
+                            let mut ans = "none".to_string();
+                            for (k, r) in all {
+                                if let Ok(a2) = catch_unwind(AssertUnwindSafe(|| r.lookup(db) as *const u64 as usize)) {
+                                    if a2 == addr {
+                                        ans = format!("in\t{}\t{}", k.0, k.1);
+                                        break;
+                                    }
+                                }
+                            }
+                            ans
+                        }
+                    }
                 }
             }
         }
@@ -559,7 +623,7 @@ fn gen_case(r: &mut Rng, idx: u64) -> Vec<String> {
     };
     out.push(format!("case\t{}\t{}\t{}", idx, cap, engine));
     // one case in five is a scripted pattern (the ones the properties point at) followed by random operations
-    let scripted = if r.chance(1, 5) { Some(r.below(7)) } else { None };
+    let scripted = if r.chance(1, 5) { Some(r.below(9)) } else { None };
     let mut keyed: HashMap<u64, u64> = HashMap::new();
     let mut sing: HashMap<u64, u64> = HashMap::new();
     let nfn;
@@ -628,6 +692,39 @@ fn gen_case(r: &mut Rng, idx: u64) -> Vec<String> {
                 keyed.insert(b, v + 1);
                 (p, o, vec![(0, a)])
             }
+            // two ref functions intern equal values from different owners in one epoch; only the second is kept (F19)
+            6 => {
+                let p = vec!["3:c1 p".to_string(), format!("{}:s p", kind(r))];
+                let w = 5 + v;
+                let mut o = vec![format!("set\t{}\t{}", a, w), format!("set\t{}\t{}", b, w), format!("call\t0\t{}", a), format!("where\t{}", w),
+                                 format!("call\t0\t{}", b), format!("where\t{}", w)];
+                if r.chance(2, 3) {
+                    o.push(format!("retain\t0\t{}", b));
+                }
+                o.push("gc".to_string());
+                o.push(format!("where\t{}", w));
+                keyed.insert(a, w);
+                keyed.insert(b, w);
+                (p, o, vec![(0, a), (0, b)])
+            }
+            // a stale node registered during verification (F22) is re-executed although it is no longer reached
+            7 => {
+                let p = vec![format!("{}:c1 p", kind(r)), "0:? s l5 c2 p l0".to_string(), "0:s p".to_string()];
+                let a = r.below(3) as u64;
+                let mut o = vec!["set\t5\t1".to_string(), format!("set\t{}\t{}", a, v), "set\t9\t0".to_string(), format!("call\t1\t{}", a),
+                                 "set\t9\t1".to_string(), format!("call\t0\t{}", a), "set\t5\t0".to_string()];
+                if r.chance(2, 3) {
+                    o.push(format!("rem\t{}", a));
+                    keyed.remove(&a);
+                } else {
+                    o.push(format!("set\t{}\t{}", a, v + 1));
+                    keyed.insert(a, v + 1);
+                }
+                o.push(format!("call\t0\t{}", a));
+                keyed.insert(5, 0);
+                keyed.insert(9, 1);
+                (p, o, vec![(0, a), (1, a)])
+            }
             // chain of depth 3 with a value-preserving middle (backdating)
             _ => {
                 let p = vec![format!("{}:+ c1 p l1", kind(r)), format!("{}:h c2 p", kind(r)), format!("{}:s p", kind(r))];
@@ -654,6 +751,16 @@ fn gen_case(r: &mut Rng, idx: u64) -> Vec<String> {
             _ => 2,
         };
         prog.push(FnDef { kind, body });
+    }
+    // ref functions (kind 3): `intern_ref` of the value of a callee that is not itself a ref function
+    for i in (0..nfn.saturating_sub(1)).rev() {
+        if g.r.chance(1, 7) {
+            let j = g.r.range(i + 1, nfn - 1);
+            if prog[j].kind != 3 {
+                let a = g.key();
+                prog[i] = FnDef { kind: 3, body: Expr::Call(j as u32, Box::new(a)) };
+            }
+        }
     }
     let mut line = format!("prog\t{}", nfn);
     for d in &prog {
@@ -732,9 +839,11 @@ fn gen_case(r: &mut Rng, idx: u64) -> Vec<String> {
         } else if w < 97 {
             let (f, a) = pick(r);
             out.push(format!("call\t{}\t{}", f, a));
-        } else if w < 100 {
+        } else if w < 99 {
             let (f, a) = pick(r);
             out.push(format!("look\t{}\t{}", f, a));
+        } else if w < 100 {
+            out.push(format!("where\t{}", r.below(8)));
         } else if w < 100 + w_gc {
             out.push("gc".into());
             if r.chance(2, 3) {
